@@ -947,7 +947,9 @@ def _disco_rules(prog):
     for s in stores:
         pv = unparse(s.ast.targets[0].slice)
         facts = [x[0] for x in facts_at(cfg, s.id) if cfg.nodes[x[1]].loops == s.loops
-                 and isinstance(cfg.nodes[x[1]].owner, ast.If)]
+                 and isinstance(cfg.nodes[x[1]].owner, ast.If)
+                 and not (len(cfg.nodes[x[1]].owner.body) == 1 and isinstance(cfg.nodes[x[1]].owner.body[0], ast.Break)
+                          and not cfg.nodes[x[1]].owner.orelse)]          # `if <end>: break` is the loop condition spelled out
         okm = facts in ([('cmp', tokv, '!=', "' '")], [('cmp', "' '", '!=', tokv)])
         inc = any(n.kind == 'stmt' and unparse(n.ast) == '%s += 1' % pv and n.id in cfg.succ[s.id]
                   and cfg.dominates(s.id, n.id) for n in cfg.eval_nodes())
